@@ -34,8 +34,8 @@ CHECKS = {
             "every scenario of a shape grammar (2-3 client threads of 1-2 calls on colliding keys, optionally a Merge thread, x initial states x index types) is explored exhaustively up to the preemption bound (unbounded for the small shapes); per schedule: per-key linearizability of the call/return history and equality of the quiescent live mapping with the mapping after one and two restarts",
             "schedule points at Lock/RLock/atomics only (sound for race-free executions; the premise is monitored by the race detector in every explored schedule, and by C09 for all call pairs); bounds on threads, calls and preemptions", "DESIGN.md §6 C08"),
  "C09": ("sched", "stateless model checking under the controlled scheduler in a -race build whose baton hand-off is invisible to the race detector; preemption-bounded DFS",
-            "all pairs and writer-containing triples of the 11 API calls x 3 index types x {one file, rotation on every record}: every schedule up to the preemption bound is monitored by the Go race detector and checked for panics, deadlock/livelock, internal errors and nil keys",
-            "the race detector sees only enumerated executions; 2-3 goroutines", "DESIGN.md §6 C09"),
+            "all pairs and writer-containing triples of the 11 API calls x 3 index types x {one file, rotation on every record}: every schedule up to the preemption bound is monitored by the Go race detector and checked for panics, deadlock/livelock, internal errors and nil keys; plus one separate free-running pass (not an exploration, counted apart) with the engine's own background merge goroutine enabled and its ticker shortened, also under the race detector",
+            "the race detector sees only enumerated executions; 2-3 goroutines; the background goroutine is not owned by the scheduler (free-running pass only)", "DESIGN.md §6 C09"),
  "C10": seq("every subset of a 6-key universe x direction x index type x shard count x prefix x every call sequence (Rewind/Seek/Next/one interleaved write) within the bound, at index level and at DB level; (Valid, Key, Value) compared with a sorted-slice cursor model after every call; ListKeys and Fold compared with the same snapshot",
             "bounds: 6 keys, 10 seek targets, 5 prefixes, call sequences of 4-6 calls; backward seeks are pruned (unspecified)", "DESIGN.md §6 C10"),
  "C11": ("sweep", "exhaustive sweep of start offsets x record-length windows x write shapes at the data-file layer, format-agnostic round-trip oracle",
